@@ -35,6 +35,10 @@ type St struct {
 	faultAt int // inject an error at the k-th mutation event from now (0 = off)
 	faultPartial int // bytes of the failing write that still reach the file (-1 = none)
 	evCount int
+	quiet   bool   // do not emit trace lines (twin run)
+	comment bool   // emit trace lines as comments (not replayed by the model)
+	faultOp string // op of the event at which the injected fault fired
+	datWrites int  // complete data-file writes observed since the fault was armed
 }
 
 type Event struct {
@@ -194,6 +198,7 @@ func (s *St) observer(op, path string, off int64, b []byte) error {
 		s.evCount++
 		if s.evCount == s.faultAt {
 			s.faultAt = 0
+			s.faultOp = op
 			if op == "write" && s.faultPartial >= 0 {
 				n := s.faultPartial
 				if n > len(b) {
@@ -211,6 +216,9 @@ func (s *St) observer(op, path string, off int64, b []byte) error {
 			}
 			return fmt.Errorf("injected fault at %s %s", op, rel)
 		}
+	}
+	if op == "write" && strings.HasSuffix(path, ".dat") && s.faultAt > 0 {
+		s.datWrites++
 	}
 	if s.record {
 		var d []byte
@@ -291,6 +299,18 @@ func (s *St) exec(call string) (rcall string, res string) {
 			return call, "err"
 		}
 		return call, errOr(s.tx.Commit(), "ok")
+	case "commitfault": // commitfault <event index> <partial bytes|-1>: Commit with an injected I/O error
+		if s.tx == nil {
+			return "commit", "err"
+		}
+		s.faultAt, s.faultPartial, s.evCount, s.faultOp, s.datWrites = atoi(a[0]), atoi(a[1]), 0, "", 0
+		err := s.tx.Commit()
+		fired := s.faultOp != ""
+		s.faultAt = 0
+		if !fired {
+			return "commit", errOr(err, "ok")
+		}
+		return fmt.Sprintf("commitfault %d %s", s.datWrites, s.faultOp), errOr(err, "ok")
 	case "rollback":
 		if s.tx == nil {
 			return call, "err"
@@ -594,10 +614,17 @@ func (s *St) run(call string) string {
 	if s.dead && !strings.HasPrefix(call, "reset") {
 		return ""
 	}
-	if nl := s.nowLine(); nl != "" {
+	if nl := s.nowLine(); nl != "" && !s.quiet && !s.comment {
 		emit("%s = -", nl)
 	}
 	rc, res := s.exec(call)
+	if s.quiet {
+		return res
+	}
+	if s.comment {
+		emit("#F %s = %s", rc, res)
+		return res
+	}
 	emit("%s = %s", rc, res)
 	return res
 }
